@@ -314,7 +314,7 @@ class Execution:
 
         def handle(mid, tname, kind, pl):  # noqa: C901, PLR0912
             nonlocal msg_n, api_in_inv, outcome, dseq, inflight_api, active_fns, idle_api
-            if kind in ("clock", "targeted_attached", "contract", "contracts_attached"):
+            if kind in ("clock", "targeted_attached", "contract", "contracts_attached", "thread_exc"):
                 self.rec(kind, **pl)
                 return
             n = msg_n
@@ -537,6 +537,16 @@ class Execution:
         a = snap()
         time.sleep(0.7)
         b = snap()
+        extra = ""
+        try:
+            before = os.path.getsize(dumpfile)
+            os.kill(pid, signal.SIGUSR2)
+            time.sleep(0.4)
+            with open(dumpfile) as f:
+                f.seek(before)
+                extra = f.read()
+        except OSError:
+            pass
 
         def norm(s):
             s = re.sub(r"0x[0-9a-f]+", "0x", s)
@@ -553,7 +563,7 @@ class Execution:
             if m and not m.group(1).endswith(blocking) and m.group(2) not in ("_timer_loop", "_collect_checkpoint_batch"):
                 all_blocked = False
         if norm(a) == norm(b) and all_blocked:
-            return "hang", a[:6000]
+            return "hang", a[:6000] + "\n" + extra[:6000]
         return "inconclusive", a[:3000]
 
     # ------------------------------------------------------------------ whole execution
